@@ -1,11 +1,12 @@
-\* full grid (thorough); props/C15.py rewrites the CONSTANTS for the quick tier and for the model-level mutants
+\* thorough grid (Sample = 99 would be the full product); props/C15.py rewrites the CONSTANTS for the quick tier and for the model-level mutants
 CONSTANTS
   CfgIds = {0, 7, 255}
   AeadIds = {1, 2, 3}
   MaxLens = {0, 32, 255}
   NameSets = {1, 2}
   ShapeIdx = {1, 2, 3, 4}
-  Sample = 99
+  UsageIdx = {1, 2, 3, 4, 5}
+  Sample = 10
   Mutant = "none"
 INIT Init
 NEXT Next
